@@ -267,3 +267,20 @@ def id_problems(tree, root):
                 if want and want not in got:
                     out.append(("id-on-wrong-text", "author id on <%s>%s</%s> ended up on <%s> with text %r" % (n.tag, (n.text or "")[:20], n.tag, mml.local(e.tag), got[:40])))
     return out
+
+
+def has_unparsed_table_cell(root):
+    """known-finding helper (C03/C04): a table cell whose row came back unparsed — two operands side by side without an operator between
+    them — which happens when the chemistry heuristics un-mark a cell (capital letters that are element symbols) and the cell is not parsed again"""
+    for td in root.iter():
+        if mml.local(td.tag) != "mtd":
+            continue
+        for row in td.iter():
+            if mml.local(row.tag) != "mrow":
+                continue
+            kids = list(row)
+            for a, b in zip(kids, kids[1:]):
+                ta, tb = mml.local(a.tag), mml.local(b.tag)
+                if ta not in ("mo", "mtext") and tb not in ("mo", "mtext"):
+                    return True
+    return False
